@@ -235,8 +235,20 @@ def builder_flow(F):
                 r.violate("%s | end/handover" % fn["path"], F.loc(fn), "%s: events %s (expected exactly one end() before the body is cloned and handed over)" % (nm, list(ev)))
         if nm.startswith("finish"):
             c = [x for x in walk(fn["body"]) if x.get("k") == "MethodCall" and x["method"] == "add_local_func_with_tag"]
+            deleg = [x for x in walk(fn["body"]) if x.get("k") == "MethodCall" and x["method"] in ("finish_module_with_tag", "finish_component_with_tag")
+                     and x["method"] != nm and (place_path(x["recv"]) or "") == "self"]
+            if not c and len(deleg) == 1:
+                # one variant implemented by the other: it hands over exactly what the other hands over
+                passes_tag = any(peel(a).get("k") == "Path" and peel(a).get("res", {}).get("name") == "tag" for a in deleg[0]["args"])
+                r.ob(passes_tag, {"fn": nm, "delegates to": deleg[0]["method"]})
+                if not passes_tag:
+                    r.violate("%s | args" % fn["path"], F.loc(fn, deleg[0]), "%s delegates to %s without passing its tag on" % (nm, deleg[0]["method"]))
+                sibs[nm] = ("delegates", deleg[0]["method"])
+                continue
             if len(c) != 1:
-                raise CheckError("%s: expected one add_local_func_with_tag call" % nm)
+                r.undecided("%s: %d add_local_func_with_tag calls: hand-over arguments not analysed" % (nm, len(c)))
+                sibs[nm] = None
+                continue
             args = [place_path(a) or snippet(_repo(), fn["file"], a["sp"]) for a in c[0]["args"]]
             want = ["self.name", "self.params", "self.results", "self.body.clone()", "tag"]
             ok = args == want
@@ -251,6 +263,9 @@ def builder_flow(F):
                     terms = sorted(f["name"] for f in walk(rhs) if f.get("k") == "Field" and f["name"].startswith("num_"))
                     break
             sibs[nm] = terms
+    for k_ in list(sibs):
+        if isinstance(sibs[k_], tuple) and sibs[k_][0] == "delegates":
+            sibs[k_] = sibs.get(sibs[k_][1])
     a, b = sibs.get("finish_module_with_tag"), sibs.get("finish_component_with_tag")
     ok = a == b and a is not None
     r.ob(ok, {"module post-condition terms": a, "component post-condition terms": b})
@@ -536,6 +551,12 @@ def additions(F):
     return r
 
 
+def _is_ops_seq(ty):
+    """a sequence of operators: Vec<Operator>, &Vec<Operator>, &[Operator], Box<[Operator]> ..."""
+    ty = ty or ""
+    return "Operator" in ty and ("Vec<" in ty or "[" in ty)
+
+
 # ---------------------------------------------------------------- C17–C21 details
 def resolver_details(F):
     r = RuleResult("R-RESOLVER-DETAILS",
@@ -543,14 +564,19 @@ def resolver_details(F):
     # function entry
     fe = F.one_fn(name="resolve_function_entry")
     r.analysed.append(fe["path"])
-    ok = False
-    for n in walk(fe["body"]):
-        if n.get("k") == "If":
-            c = peel(n["cond"])
-            if c.get("k") == "Binary" and c["op"] == "==" and peel(c["b"]).get("k") == "Lit" and lit_int(peel(c["b"])["lit"]) == 0 and peel(c["a"]).get("res", {}).get("name") == "idx":
-                ms = [x["method"] for x in walk(n["then"]) if x.get("k") == "MethodCall"]
-                ok = "before_at" in ms and "inject_all" in ms and "after_at" not in ms and "alternate_at" not in ms
-    r.ob(ok, {"function entry": "idx == 0 → before_at + inject_all"})
+    # decided by cases on the instruction index (shape-independent): at index 0 every path selects Before and injects the
+    # entry body; at any other index no path injects anything
+    from vlib.paths import int_eq_case
+    idx_h = {pm["pat"]["hid"] for pm in fe.get("params", []) if pm["pat"].get("k") == "Binding" and (pm.get("ty") or "") == "usize"}
+
+    def cl_e(n):
+        if n.get("k") == "MethodCall" and n["method"] in ("before_at", "after_at", "alternate_at", "inject_all", "inject"):
+            return n["method"]
+        return None
+    at0 = {ev for ev, st in normal_paths(paths(fe["body"], cl_e, decide_if=int_eq_case(idx_h, 0, True)[0]))}
+    other = {ev for ev, st in normal_paths(paths(fe["body"], cl_e, decide_if=int_eq_case(idx_h, 0, False)[0]))}
+    ok = bool(idx_h) and at0 == {("before_at", "inject_all")} and other == {()}
+    r.ob(ok, {"function entry": "idx == 0 → before_at + inject_all", "paths at 0": sorted(map(list, at0)), "paths elsewhere": sorted(map(list, other))})
     if not ok:
         r.violate("%s | placement" % fe["path"], F.loc(fe), "the entry body is not injected before instruction 0")
     # exit wrapper: Block pushed onto the entry list; closed by end() at len-1 before inject_all(exit)
@@ -934,7 +960,7 @@ def save_siblings(F):
                         lf_ = _push_list_field(cc)
                         if lf_:
                             pushes.add(lf_)
-        body_params = {p["pat"].get("hid") for p in fn.get("params", []) if "Operator" in (p.get("ty") or "") and "Vec" in (p.get("ty") or "")}
+        body_params = {p["pat"].get("hid") for p in fn.get("params", []) if _is_ops_seq(p.get("ty"))}
         if not pushes or not body_params:
             continue
         r.analysed.append(fn["path"])
@@ -954,12 +980,12 @@ def save_siblings(F):
         if fn.get("body") is None:
             continue
         has_map = any("InstrToInject" in (pm.get("ty") or "") and "HashMap" in (pm.get("ty") or "") for pm in fn.get("params", []))
-        has_body = any("Operator" in (pm.get("ty") or "") and "Vec" in (pm.get("ty") or "") for pm in fn.get("params", []))
+        has_body = any(_is_ops_seq(pm.get("ty")) for pm in fn.get("params", []))
         files_directly = any((x.get("k") == "Struct" and (x.get("adt") or "").endswith("InstrToInject") and "rest" not in x and any(isinstance(f_, list) and isinstance(f_[1], dict) and f_[1].get("k") not in ("Binding", "Wild") for f_ in x.get("fields", []))) or
                              _push_list_field(x) is not None
                              for x in walk(fn["body"]))
         calls_filer = any(x.get("k") == "Call" and (x.get("callee") or "").endswith("_inner") for x in walk(fn["body"]))
-        if has_map and has_body and (files_directly or (calls_filer and not any("Operator<" in (pm.get("ty") or "") and "Vec" not in (pm.get("ty") or "") for pm in fn.get("params", [])))):
+        if has_map and has_body and (files_directly or (calls_filer and not any(("Operator<" in (pm.get("ty") or "") and not _is_ops_seq(pm.get("ty"))) for pm in fn.get("params", [])))):
             helpers.append(fn)
     r.count("save_helpers", len(helpers))
     if len(helpers) < 2:
@@ -967,7 +993,7 @@ def save_siblings(F):
     for fn in helpers:
         if fn["path"] not in r.analysed:
             r.analysed.append(fn["path"])
-        body_params = {p["pat"].get("hid") for p in fn["params"] if "Operator" in (p.get("ty") or "") and "Vec" in (p.get("ty") or "")}
+        body_params = {p["pat"].get("hid") for p in fn["params"] if _is_ops_seq(p.get("ty"))}
         # (a) the body is stored on every path: conditional stores are allowed only as the two arms of an entry()
         #     and_modify/or_insert pair (both arms store) — a bare `if let Some(x) = map.get_mut(..) { push }` drops the body
         #     when the entry does not exist yet
